@@ -510,3 +510,12 @@ def _dataset_case(name):
 
 
 DATASET_CASES = [_dataset_case("intel"), _dataset_case("garage")]
+
+
+def extra_stage(tier, seed, tmp):
+    """thorough tier: the repository's own test-suite as a workload under this property's monitors (every Graph.optimize / Graph.from_g2o call)."""
+    if tier != "thorough":
+        return None
+    from ..runner import suite_under_monitors
+
+    return suite_under_monitors("C14", seed, tmp)
